@@ -133,6 +133,56 @@ def _child(conn, args):
         conn.close()
 
 
+def _cov_child(conn, args, files):
+    """coverage sample in a forked child (a memory-unsafe kernel must never be able to take the check itself down):
+    sends back {path: (statements, missing)} for the anchored files"""
+    try:
+        import coverage
+        cov = coverage.Coverage(data_file=None, include=[os.path.join(anchors.REPO, "pymoode", "*")], branch=False)
+        cov.start()
+        try:
+            _run_chunk(args)
+        finally:
+            cov.stop()
+        res = {}
+        for path in files:
+            try:
+                _, stmts, _, missing, _ = cov.analysis2(os.path.join(anchors.REPO, path))
+                res[path] = (list(stmts), list(missing))
+            except Exception:
+                pass
+        conn.send(("ok", res))
+    except BaseException:
+        try:
+            conn.send(("exc", traceback.format_exc()[-800:]))
+        except Exception:
+            pass
+    finally:
+        conn.close()
+
+
+def _coverage_sample(args, files, timeout=600):
+    ctx = mp.get_context("fork")
+    rd, wr = ctx.Pipe(duplex=False)
+    pr = ctx.Process(target=_cov_child, args=(wr, args, files))
+    pr.start()
+    wr.close()
+    res = None
+    try:
+        if rd.poll(timeout):
+            msg = rd.recv()
+            if msg[0] == "ok":
+                res = msg[1]
+    except (EOFError, OSError):
+        res = None
+    pr.join(10)
+    if pr.is_alive():
+        pr.kill()
+        pr.join()
+    rd.close()
+    return res
+
+
 def _run_isolated(chunks, workers, deadline_per_case):
     """every chunk in a forked child: a crash (or a hang in native code) of the real code is an outcome of
     the case that caused it, not the end of the check. Returns one ('ok', recs) / ('crash', status) /
@@ -366,12 +416,8 @@ def main_check(pid, tier, seed, write_evidence=True):
     import multiprocessing as mp
     pool = True if tier == "thorough" or spec.get("parallel") else None      # width flag for run_cases
     broken_corr = []    # (comp, rec, mismatch)
-    cov = None
-    try:
-        import coverage
-        cov = coverage.Coverage(data_file=None, include=[os.path.join(anchors.REPO, "pymoode", "*")], branch=False)
-    except Exception:
-        cov = None
+    cov = {}        # path -> (statements, lines not executed by any sample)
+    cov_files = sorted({path for comp, _, _ in spec["components"] for path, _ in anchors.ANCHORS.get(comp, []) if path.endswith(".py")})
     try:
         for ci, (comp, nq, nt) in enumerate(spec["components"]):
             mod = comp_module(comp)
@@ -391,13 +437,14 @@ def main_check(pid, tier, seed, write_evidence=True):
             # a sequential sample runs in this process under line coverage of the anchored files
             k_cov = min(len(cases), 80)
             recs = run_cases(comp, cases, pool, pid)
-            if cov is not None and k_cov and not any(r.cfg.get("crashed") or r.cfg.get("timed_out") for r in recs[:k_cov + 5]):
-                # (only after the same cases have run in child processes without killing or hanging them)
-                cov.start()
-                try:
-                    _run_chunk((comp, cases[:k_cov], pid))
-                finally:
-                    cov.stop()
+            if k_cov and cov_files and not any(r.cfg.get("crashed") or r.cfg.get("timed_out") for r in recs[:k_cov + 5]):
+                # (in a child of its own as well: nothing of the real code ever runs in the check's own process)
+                got = _coverage_sample((comp, cases[:k_cov], pid), cov_files)
+                for path, (stmts, missing) in (got or {}).items():
+                    if path in cov:
+                        cov[path] = (cov[path][0], sorted(set(cov[path][1]) & set(missing)))
+                    else:
+                        cov[path] = (stmts, sorted(missing))
             mism = correspond(comp, recs)
             oracle = mod.ORACLES[pid]
             cstat = {"records": len(recs), "mismatches": 0, "oracle_failures": 0, "nontrivial": 0, "impl_errors": 0}
@@ -474,16 +521,9 @@ def main_check(pid, tier, seed, write_evidence=True):
                         stats.setdefault("extras", {}).update(mod.thorough_extras(pid))
                     except Exception as e:
                         stats.setdefault("extras", {})[comp] = "extras failed: %s" % e
-        if cov is not None:
-            lc = {}
-            files = sorted({path for comp, _, _ in spec["components"] for path, _ in anchors.ANCHORS.get(comp, []) if path.endswith(".py")})
-            for path in files:
-                try:
-                    _, stmts, _, missing, _ = cov.analysis2(os.path.join(anchors.REPO, path))
-                    lc[path] = {"statements": len(stmts), "executed": len(stmts) - len(missing), "missing_lines": list(missing)[:40]}
-                except Exception:
-                    pass
-            stats["line_coverage"] = lc
+        if cov:
+            stats["line_coverage"] = {path: {"statements": len(stmts), "executed": len(stmts) - len(missing), "missing_lines": list(missing)[:40]}
+                                      for path, (stmts, missing) in sorted(cov.items())}
     finally:
         pass
 
